@@ -15,6 +15,7 @@ import (
 	"strings"
 
 	"github.com/virus-evolution/gofasta/pkg/sam"
+	"github.com/virus-evolution/gofasta/pkg/variants"
 )
 
 func init() {
@@ -78,7 +79,7 @@ func runSamFam(vec map[string]interface{}) map[string]interface{} {
 		wrap := gIntD(r, "wrap", -1)
 		t := gIntD(r, "t", 1)
 		switch gStr(r, "cmd") {
-		case "samvar", "topavar":
+		case "samvar", "topavar", "tomavar":
 			// sam variants on the abstract block, and variants on the real toPairAlign output of the same block (C11, C05)
 			anno := renderGenbank(gSeq(vec, "ref"), nil)
 			var out bytes.Buffer
@@ -88,6 +89,19 @@ func runSamFam(vec map[string]interface{}) map[string]interface{} {
 				err, ok = callWithDeadline(callDeadline, func() error {
 					return sam.Variants(bytes.NewReader(samData), bytes.NewReader(refFa), true, bytes.NewReader(anno), "gb", &out, -1, -1, false, 0.0, false, t)
 				})
+			} else if gStr(r, "cmd") == "tomavar" {
+				// the other FASTA form: the padded toMultiAlign rows placed in an alignment with the reference (judged for
+				// queries without insertions)
+				var rowsFa bytes.Buffer
+				err, ok = callWithDeadline(callDeadline, func() error {
+					return sam.ToMultiAlign(bytes.NewReader(samData), &rowsFa, -1, -1, -1, true, 1)
+				})
+				if ok && err == nil {
+					msa := append(append([]byte{}, refFa...), rowsFa.Bytes()...)
+					err, ok = callWithDeadline(callDeadline, func() error {
+						return variants.Variants(bytes.NewReader(msa), false, "ref", bytes.NewReader(anno), "gb", &out, -1, -1, false, 0.0, false, t)
+					})
+				}
 			} else {
 				err, ok = topaVariants(samData, refFa, anno, "gb", -1, -1, false, &out)
 			}
